@@ -67,7 +67,7 @@ def run(ctx):
     return {"level": "model_checking", "coverage": cov, "assumptions": [
         "virtual time (testing/synctest); scripted transports; one dialled peer per scenario",
         "a returned connection counts as unusable only if it had been closed before the call began",
-        "back-off is not modelled in the observable spec: an error return demands that every usable address has failed at some point",
+        "back-off instants are decided by the extension engine C05_Backoff (checks/C05bo.py: tick-time model, object replay, swarm traces against C05_BackoffObs); C05_Obs itself only demands that every usable address has failed at some point before an error return",
     ]}
 
 
@@ -121,6 +121,7 @@ MANIFEST = {
     "technique": "TLA+ spec of dialSync/worker/limiter model-checked exhaustively (safety + liveness); observable-level TLA+ spec C05_Obs whose action guards are the statement's clauses; executions of a real Swarm under virtual time with scripted transports validated against it by TLC",
     "category": "model_checking",
     "text": "Dial deduplication, caps and exactly-once completion depend on the interleaving of callers, a worker loop, a limiter and dial goroutines; TLC enumerates them on bounded instances (incl. termination under fairness), and every recorded real execution - with outcomes, latencies, cancellations, connection closes and caps chosen by a seeded scenario in virtual time - is checked step by step against the clauses: right peer, usable connection, error only when exhausted, one transport dial per address while callers wait, caps, prompt cancellation, no residue.",
-    "note": "Scenarios are sampled; one peer per scenario. Residue is read in-package (dsync.dials, limiter counters) because the statement names it. Back-off instants are not modelled at the observable level.",
-    "engines": [{"name": "C05_Dial", "path": "spec/C05_Dial.tla", "serves_properties": ["C05"], "kind_free_text": "TLA+ spec + TLC exhaustive/liveness + trace validation against C05_Obs.tla"}],
+    "note": "Scenarios are sampled; one peer per scenario. Residue is read in-package (dsync.dials, limiter counters) because the statement names it. Back-off: extension engine C05_Backoff (spec/C05_Backoff*.tla, checks/C05bo.py).",
+    "engines": [{"name": "C05_Dial", "path": "spec/C05_Dial.tla", "serves_properties": ["C05"], "kind_free_text": "TLA+ spec + TLC exhaustive/liveness + trace validation against C05_Obs.tla"},
+                {"name": "C05_Backoff", "path": "spec/C05_Backoff.tla", "serves_properties": ["C05"], "kind_free_text": "TLA+ model of DialBackoff and its use by the dial worker: TLC exhaustive, full-transition replay on a real DialBackoff in virtual time, swarm traces validated against C05_BackoffObs.tla"}],
 }
